@@ -39,7 +39,7 @@ ASSUMPTIONS = ['value counts: exact while fewer distinct values than --max_uniqu
 POOL = ['a', 'b', 'c', 'd', '', '{}', 'NA', '0', '1', 'x y', 'é', 'a ', ' a', '12', '2', 'bc', 'A']
 # column names one of which is a prefix of another: ('f1','12') / ('f11','2') and ('f','bc') / ('fb','c') concatenate equally
 COLNAMES = ['f1', 'f11', 'f', 'fb', 'f2', 'g 1', 'é', 'f12', 'terms AND conditions', 'a AND_REL b']
-MISSING_SETS = [',{}', 'NA', ',{},NA', 'a,b', '0', 'NA,{},NA', ',,{}', 'a,a']   # a symbol may be listed twice
+MISSING_SETS = [',{}', 'NA', ',{},NA', 'a,b', '0', 'NA,{},NA', ',,{}', 'a,a', '', '"NA",x']   # '' = only the empty cell is missing; a symbol may carry quotes   # a symbol may be listed twice
 
 
 @st.composite
@@ -233,6 +233,8 @@ def pipeline_case(draw):
     cols['label'] = {'vals': ['0', '1'], 'seed': draw(st.integers(0, 2**32 - 1)), 'rare': []}
     case = {'seq': {'n': rows, 'cols': cols}, 'ms': sorted(ms), 'task': draw(st.sampled_from(['ranking', 'identify_rare_values'])),
             'bound': draw(st.sampled_from([0, 0, 1, 2, 4])), 'hist_bound': draw(st.sampled_from([2, 3, 30_000]))}
+    # names with or without the "(cardinality; coverage)" annotation: the bookkeeping behind the other outputs must not depend on it
+    case['annot'] = draw(st.sampled_from([True, True, False]))
     if colset_choice == 0 and ncols == 3 and case['task'] == 'ranking' and draw(st.booleans()):
         # constructed interaction features under a binding per-batch budget: each exists in some mini-batches only
         case['order'] = 2
@@ -245,6 +247,7 @@ def run_task(cols, names, m, case, tmp):
     args = stubs.make_args(task=case['task'], minibatch_size=int(m), subsampling=1, data_path=os.path.join(tmp, 'data'),
                            data_source='csv-raw', output_folder=out, heuristic='MI-numba-randomized',
                            rare_value_count_upper_bound=int(case['bound']), max_unique_hist_constraint=int(case['hist_bound']),
+                           include_cardinality_in_feature_names='False' if case.get('annot') is False else 'True',
                            **({'interaction_order': int(case['order']), 'combination_number_upper_bound': int(case['cap'])}
                               if case.get('order') else {}))
     stubs.reset_globals()
@@ -279,6 +282,8 @@ def oracle_pipeline(case, rec):
             if case['task'] == 'ranking':
                 ranks = pd.read_csv(os.path.join(out, 'pairwise_ranks.tsv'), sep='\t', keep_default_na=False, na_values=[])
                 annotated = set(ranks.FeatureA) | set(ranks.FeatureB)
+                if case.get('annot') is False:
+                    rec.cls('plain-names')
                 if case.get('order'):
                     rec.cls('interaction-features-under-binding-cap')
                     for full in sorted(annotated):
@@ -287,7 +292,7 @@ def oracle_pipeline(case, rec):
                             # a constructed interaction value is a digest, never a missing-value symbol: 100 % in every batch it exists in
                             raise Violation(f'minibatch_size {m}: interaction feature annotated {full!r}; its values are never missing, so '
                                             f'the mean of its per-batch coverage percentages is 100', kind='C13/annotation')
-                for c in names:
+                for c in (names if case.get('annot') is not False else []):
                     card = len({v for v in cols[c] if v})
                     covs = []
                     for a in range(0, n, m):
